@@ -677,13 +677,28 @@ func tryReplay(eng *Engine, o *Obligation, dir, prop, repo string) *replayResult
 	} else {
 		clauseFalse := strings.Contains(out, "REPLAY-CLAUSE "+o.Clause+" false")
 		panicked := strings.Contains(out, "REPLAY-PANIC")
+		// a panic only confirms an obligation about that kind of panic; inputs
+		// built from a model are shallow, so an unrelated panic proves nothing
+		kindWord := map[string]string{"index": "index out of range", "slice": "slice bounds out of range", "slice3": "slice bounds out of range",
+			"nil": "nil pointer", "typeassert": "interface conversion", "makesize": "makeslice", "divzero": "divide by zero",
+			"hashable-key": "unhashable", "negshift": "negative shift", "nilmap": "nil map", "panic": ""}
+		matchPanic := false
+		if panicked && strings.HasPrefix(o.Clause, "safety.") {
+			what := strings.TrimPrefix(o.Clause, "safety.")
+			if i := strings.Index(what, "("); i >= 0 {
+				what = what[:i]
+			}
+			if w, ok := kindWord[what]; ok && strings.Contains(out, w) {
+				matchPanic = true
+			}
+		}
 		switch o.Kind {
 		case "post":
-			res.Confirmed = clauseFalse || panicked
-		case "safety", "unwind", "call-pre":
-			res.Confirmed = panicked
+			res.Confirmed = clauseFalse
+		case "safety":
+			res.Confirmed = matchPanic
 		default:
-			res.Confirmed = panicked
+			res.Confirmed = false
 		}
 		if res.Confirmed {
 			res.Note = "counterexample reproduced on the real code"
